@@ -181,6 +181,7 @@ def assemble(unit_dir, repo, vacuity=False, variables=None, probe_insert=None):
                 out_ = ["#[derive(Clone, Copy)]", "pub struct %s { %s }" % (a["name"], ", ".join(f"pub {l}: bool" for l in low)), "impl %s {" % a["name"]]
                 for n, l in zip(names, low):
                     out_.append("    pub const %s: %s = %s { %s };" % (n, a["name"], a["name"], ", ".join(f"{x}: {'true' if x == l else 'false'}" for x in low)))
+                out_.append("    pub open spec fn no_flags(&self) -> bool { %s }" % " && ".join(f"!self.{l}" for l in low))
                 out_.append("    pub fn empty() -> (r: %s) ensures %s { %s { %s } }" % (a["name"], " && ".join(f"!r.{l}" for l in low), a["name"], ", ".join(f"{l}: false" for l in low)))
                 out_.append("    pub fn contains(&self, o: %s) -> (r: bool) ensures r == (%s) { %s }" % (a["name"], " && ".join(f"(!o.{l} || self.{l})" for l in low), " && ".join(f"(!o.{l} || self.{l})" for l in low)))
                 out_.append("    pub fn insert(&mut self, o: %s) ensures %s { %s }" % (a["name"], ", ".join(f"final(self).{l} == (old(self).{l} || o.{l})" for l in low), " ".join(f"self.{l} = self.{l} || o.{l};" for l in low)))
